@@ -125,9 +125,10 @@ func scopesValid(thorough bool) []Scope {
 	scs = append(scs, familyScopes(thorough)...)
 	if thorough {
 		scs = append(scs,
-			Scope{Name: "L-holes-3", GS: synthGS(0, 2, [2]int64{6, 6}), Spec: lat.Spec{Points: lat.Window(3, 3, 2), MaxK: 4, Valid: true, MaxHoles: 1, HoleMaxK: 3}, IDSets: one, Cfgs: keepCfgs},
 			Scope{Name: "L-strip-4x1", GS: synthGS(0, 4, [2]int64{6, 7}), Spec: lat.Spec{Points: lat.Window(4, 1, 4), MaxK: 5, Valid: true}, IDSets: one, Cfgs: keepCfgs},
 			Scope{Name: "L-strip-1x4", GS: synthGS(0, 4, [2]int64{7, 6}), Spec: lat.Spec{Points: lat.Window(1, 4, 4), MaxK: 5, Valid: true}, IDSets: one, Cfgs: keepCfgs},
+			// largest scope last: if the thorough deadline cuts it short, everything before it is complete
+			Scope{Name: "L-holes-3", GS: synthGS(0, 2, [2]int64{6, 6}), Spec: lat.Spec{Points: lat.Window(3, 3, 2), MaxK: 4, Valid: true, MaxHoles: 1, HoleMaxK: 3}, IDSets: one, Cfgs: keepCfgs},
 		)
 	}
 	return scs
